@@ -557,6 +557,20 @@ func (im *Impl) Exec(line string) (out []string) {
 			return append(out, "compact err "+errName(err))
 		}
 		return append(out, fmt.Sprintf("compact ok %d %d %d", cr.CompactedSegments, cr.ReclaimedRecords, cr.ReclaimedBytes))
+	case "compactbusy":
+		// Compact called while a stepped Backup is in progress (the yield hook of the backup stays
+		// installed; it only parks backup.* points): must fail with the "busy" error at once
+		if im.DB == nil {
+			return closedErr("compact")
+		}
+		cr, err := im.DB.Compact()
+		if err != nil {
+			if strings.Contains(err.Error(), "already in progress") || strings.Contains(err.Error(), "busy") {
+				return []string{"compact err busy"}
+			}
+			return []string{"compact err " + errName(err)}
+		}
+		return []string{fmt.Sprintf("compact ok %d %d %d", cr.CompactedSegments, cr.ReclaimedRecords, cr.ReclaimedBytes)}
 	case "close":
 		if im.DB == nil {
 			return closedErr("close")
